@@ -1,6 +1,9 @@
 package c16
 
 import (
+	"context"
+	"io"
+	"sync"
 	"encoding/json"
 	"fmt"
 	"math/big"
@@ -9,6 +12,7 @@ import (
 	"testing"
 	"time"
 
+	"perkeep.org/pkg/blob"
 	"perkeep.org/pkg/jsonsign"
 	"perkeep.org/pkg/schema"
 	"pgregory.net/rapid"
@@ -116,6 +120,36 @@ func hasWideInt(v any) bool {
 	return false
 }
 
+type legacyFetcher struct {
+	id  *vsign.Identity
+	ref blob.Ref
+}
+
+func (f legacyFetcher) Fetch(ctx context.Context, br blob.Ref) (io.ReadCloser, uint32, error) {
+	if br == f.ref {
+		return io.NopCloser(strings.NewReader(f.id.Armored)), uint32(len(f.id.Armored)), nil
+	}
+	return vsign.KeyFetcher().Fetch(ctx, br)
+}
+
+var (
+	legacyMu      sync.Mutex
+	legacySigners = map[string]*schema.Signer{}
+)
+
+func legacySigner(id *vsign.Identity, ref blob.Ref) (*schema.Signer, error) {
+	legacyMu.Lock()
+	defer legacyMu.Unlock()
+	if s, ok := legacySigners[id.Name]; ok {
+		return s, nil
+	}
+	s, err := schema.NewSigner(ref, strings.NewReader(id.Armored), entityOf(id))
+	if err == nil {
+		legacySigners[id.Name] = s
+	}
+	return s, err
+}
+
 type builderCase struct {
 	Unsigned string `json:"unsigned"`
 	Signer   string `json:"signer"`
@@ -157,6 +191,18 @@ func TestBuilderRouteKeepsFields(t *testing.T) {
 		if err != nil {
 			panic("harness: schema.NewSigner: " + err.Error())
 		}
+		var fetch blob.Fetcher = vsign.KeyFetcher()
+		wantSigner := id.Ref
+		if rapid.IntRange(0, 3).Draw(t, "legacyKeyRef") == 0 {
+			// the signer's public key blob named by its legacy sha1 ref, as stores created before the
+			// switch to sha224 name it
+			wantSigner = vgen.RefOf("sha1", []byte(id.Armored))
+			if signer, err = legacySigner(id, wantSigner); err != nil {
+				t.Fatalf("C16 violated (completeness): schema.NewSigner refuses the public key under its sha1 ref %v: %v", wantSigner, err)
+			}
+			fetch = legacyFetcher{id: id, ref: wantSigner}
+			evid.R.Label("builder-route/signer-named-by-sha1-ref")
+		}
 		sigTime := time.Unix(st, 0)
 		signed, err := b.Builder().SignAt(ctxbg, signer, sigTime)
 		if err != nil {
@@ -165,11 +211,11 @@ func TestBuilderRouteKeepsFields(t *testing.T) {
 		if !json.Valid([]byte(signed)) {
 			t.Fatalf("C16 violated (completeness): Blob.Builder().SignAt returned invalid JSON: %q", signed)
 		}
-		vr := jsonsign.NewVerificationRequest(signed, vsign.KeyFetcher())
+		vr := jsonsign.NewVerificationRequest(signed, fetch)
 		if _, err := vr.Verify(ctxbg); err != nil {
 			t.Fatalf("C16 violated (completeness): a document signed through Blob.Builder().SignAt does not verify: %v\nsigned: %q", err, signed)
 		}
-		if vr.CamliSigner != id.Ref {
+		if vr.CamliSigner != wantSigner {
 			t.Fatalf("C16 violated (completeness): signed through %s's signer, the document names %v", id.Name, vr.CamliSigner)
 		}
 		got, err := decodeNumbers(signed)
